@@ -188,7 +188,7 @@ func streamErrorEdges(fn *ssa.Function) []sx.Edge {
 		if !isStreamOp {
 			return
 		}
-		m := func(o sx.Origin) bool { return o.Kind == sx.KCall && o.V == c }
+		m := func(o sx.Origin) bool { return (o.Kind == sx.KCall || o.Kind == sx.KExtract) && o.V == ssa.Value(c) }
 		sx.AllInstrs(fn, func(_ sx.Node, in2 ssa.Instruction) {
 			if ifi, ok := in2.(*ssa.If); ok && isErrNonNil(ifi, m) != 0 {
 				out = append(out, errEdge(ifi, m, true))
@@ -247,7 +247,7 @@ func runC09(l *core.Ledger) {
 		}
 	}
 
-	clientLocks := map[string]bool{"responseMut": true, "streamMut": true, "mu": true}
+	clientLocks := map[string]bool{"responseMut": true, "streamMut": true, "mu": true, "connMu": true}
 	seenKeys := map[string]bool{}
 	nUnder := 0
 	edges := map[string]map[string]string{} // lock order: held -> acquired -> witness
@@ -286,6 +286,13 @@ func runC09(l *core.Ledger) {
 					}
 				} else {
 					l.Bad("C09-W1", key, pos, fmt.Sprintf("%s while responseMut is held (via %s): every reader, sender and caller of this node needs that mutex", ho.op.desc, ho.via))
+				}
+			case "connMu":
+				// serialises (re-)dial against close: creating and closing the connection is what it is for
+				if ho.op.kind == "dial" || ho.op.kind == "conn-close" {
+					l.OK("C09-W1", key, pos, "connection creation/closing under connMu: transport-bounded and exactly what the lock serialises")
+				} else {
+					l.Bad("C09-W1", key, pos, fmt.Sprintf("%s while connMu is held (via %s): Close waits for it", ho.op.desc, ho.via))
 				}
 			case "mu":
 				l.Bad("C09-W1", key, pos, fmt.Sprintf("%s while %s.mu is held (via %s)", ho.op.desc, fnKey(ho.holder), ho.via))
